@@ -298,6 +298,13 @@ func (so *Sorts) strLit(s string) string {
 }
 
 func (so *Sorts) typeTag(t types.Type) string {
+	// a type alias (type vclock = GCounter) has the dynamic type of what it names
+	t = types.Unalias(t)
+	if p, ok := t.(*types.Pointer); ok {
+		if _, isAlias := p.Elem().(*types.Alias); isAlias {
+			t = types.NewPointer(types.Unalias(p.Elem()))
+		}
+	}
 	k := qualTypeName(t)
 	if _, ok := so.typeTags[k]; !ok {
 		so.typeTags[k] = len(so.typeTags) + 1
